@@ -1,2 +1,104 @@
-/- driver stub for C07: replaced when the model exists -/
-def main : IO Unit := pure ()
+/- driver for C07: APDU fixed headers (Model.Apci)
+
+   requests (one JSON object per line):
+     {"op":"enc","h":H}                 APCI.encode            → {"r":"ok","hex":..}
+     {"op":"dec","hex":..}              APCI.decode            → {"r":"ok","h":H,"rest":..,"own":..,"len":n}
+     {"op":"aenc","h":H,"data":..}      APDU.encode            → {"r":"ok","hex":..}
+     {"op":"adec","hex":..}             APDU.decode            → {"r":"ok","h":H,"data":..}
+     {"op":"segs-enc","n":N|null}       encode_max_segments_accepted     → {"r":"ok","c":n}
+     {"op":"segs-dec","c":N}            decode_max_segments_accepted     → {"r":"ok","n":N|null}
+     {"op":"len-enc","n":N}             encode_max_apdu_length_accepted  → {"r":"ok","c":n}
+     {"op":"len-dec","c":N}             decode_max_apdu_length_accepted  → {"r":"ok","n":N}
+   H = {"t":N,"seg":B?,"mor":B?,"sa":B?,"srv":B?,"nak":B?,"seq":N?,"win":N?,
+        "msegs":N?,"mresp":N?,"svc":N?,"inv":N?,"rsn":N?}   (null = None)
+   errors: {"r":"err","k":"<Err name>"};  "br" = branch signature (coverage only)
+-/
+import BacVerif.Drv.Common
+import BacVerif.Model.Apci
+open Lean BacVerif BacVerif.Drv
+
+def fldOptBool (j : Json) (k : String) : R (Option Bool) :=
+  match fldOpt j k with
+  | none => pure none
+  | some v => do pure (some (← v.getBool?))
+
+def apciOfJson (j : Json) : R Apci := do
+  pure { apduType := ← fldNat j "t",
+         seg := ← fldOptBool j "seg", mor := ← fldOptBool j "mor", sa := ← fldOptBool j "sa",
+         srv := ← fldOptBool j "srv", nak := ← fldOptBool j "nak",
+         seq := ← fldOptNat j "seq", win := ← fldOptNat j "win",
+         maxSegs := ← fldOptNat j "msegs", maxResp := ← fldOptNat j "mresp",
+         service := ← fldOptNat j "svc", invokeID := ← fldOptNat j "inv",
+         reason := ← fldOptNat j "rsn" }
+
+def jBoolOpt : Option Bool → Json
+  | none => Json.null
+  | some b => Json.bool b
+
+def jApci (h : Apci) : Json :=
+  Json.mkObj [("t", Json.num h.apduType),
+    ("seg", jBoolOpt h.seg), ("mor", jBoolOpt h.mor), ("sa", jBoolOpt h.sa),
+    ("srv", jBoolOpt h.srv), ("nak", jBoolOpt h.nak),
+    ("seq", jNatOpt h.seq), ("win", jNatOpt h.win),
+    ("msegs", jNatOpt h.maxSegs), ("mresp", jNatOpt h.maxResp),
+    ("svc", jNatOpt h.service), ("inv", jNatOpt h.invokeID), ("rsn", jNatOpt h.reason)]
+
+/-- branch signature of a header: type + segmented flag -/
+def brOf (h : Apci) : String := s!"t{h.apduType}{if truthy h.seg then "s" else ""}"
+
+def withBr (br : String) (j : Json) : Json := j.setObjVal! "br" (Json.str br)
+
+def handle (j : Json) : R Json := do
+  match ← fldStr j "op" with
+  | "enc" =>
+      let h ← apciOfJson (← fld j "h")
+      match encodeApci h with
+      | .error e => pure (withBr s!"enc-err-{brOf h}" (jErr e))
+      | .ok bs => pure (withBr s!"enc-{brOf h}" (jOk [("hex", jHex bs)]))
+  | "dec" =>
+      let bs ← fldHex j "hex"
+      match decodeApci bs with
+      | .error e =>
+          let t := match bs with | [] => "empty" | b :: _ => s!"t{b.toNat / 16}"
+          pure (withBr s!"dec-err-{t}" (jErr e))
+      | .ok (h, rest) =>
+          pure (withBr s!"dec-{brOf h}"
+            (jOk [("h", jApci h), ("rest", jHex rest),
+                  ("own", jHex (ownDataAfterApciDecode h rest)),
+                  ("len", Json.num (apciLen h))]))
+  | "aenc" =>
+      let h ← apciOfJson (← fld j "h")
+      let d ← fldHex j "data"
+      match encodeApdu h d with
+      | .error e => pure (withBr s!"aenc-err-{brOf h}" (jErr e))
+      | .ok bs => pure (withBr s!"aenc-{brOf h}" (jOk [("hex", jHex bs)]))
+  | "adec" =>
+      let bs ← fldHex j "hex"
+      match decodeApdu bs with
+      | .error e =>
+          let t := match bs with | [] => "empty" | b :: _ => s!"t{b.toNat / 16}"
+          pure (withBr s!"adec-err-{t}" (jErr e))
+      | .ok (h, d) => pure (withBr s!"adec-{brOf h}" (jOk [("h", jApci h), ("data", jHex d)]))
+  | "segs-enc" =>
+      let n ← fldOptNat j "n"
+      match encodeMaxSegs n with
+      | .error e => pure (jErr e)
+      | .ok c => pure (withBr s!"segs-enc-{c}" (jOk [("c", Json.num c)]))
+  | "segs-dec" =>
+      let c ← fldNat j "c"
+      match decodeMaxSegs c with
+      | .error e => pure (jErr e)
+      | .ok v => pure (withBr s!"segs-dec-{c}" (jOk [("n", jNatOpt v)]))
+  | "len-enc" =>
+      let n ← fldNat j "n"
+      match encodeMaxApdu n with
+      | .error e => pure (jErr e)
+      | .ok c => pure (withBr s!"len-enc-{c}" (jOk [("c", Json.num c)]))
+  | "len-dec" =>
+      let c ← fldNat j "c"
+      match decodeMaxApdu c with
+      | .error e => pure (jErr e)
+      | .ok v => pure (withBr s!"len-dec-{c}" (jOk [("n", Json.num v)]))
+  | op => throw s!"unknown op {op}"
+
+def main : IO Unit := loop handle
